@@ -1665,10 +1665,14 @@ BEVY_MUT_METHODS[('Vec', 'insert')] = ('usize+elem', 'Reg.insert_at {a0} {a1} {c
 BEVY_MUT_METHODS[('Vec', 'remove')] = ('usize', 'Reg.remove_at {a0} {cur}')
 BEVY_MUT_METHODS[('Vec', 'swap_remove')] = ('usize', 'Reg.swap_remove {a0} {cur}')
 EFFECT_STMTS[('ContextInstance', 'trigger_removed')] = "trigger_removed'"
+# recv.m(t1, t2, args..) = (recv, t1, t2) := <parameter> recv t1 t2 args..   (time arguments are not passed)
+OPAQUE_MULTI_STMTS = {('ContextInstance', 'update'): ("instance_update'", 2)}
 REG_PRE = r"""Section RegistrySrc.
 (* OPAQUE PARAMETERS: the command queue and ctx.trigger_removed(commands, time, entities) (for the current `time`) *)
 Variable Cmds' : Type.
 Variable trigger_removed' : inst -> Cmds' -> list Z -> Cmds'.
+(* ctx.update(commands, reader, time, entities) (for the current `time`): new instance, command queue, reader *)
+Variable instance_update' : inst -> Cmds' -> InputReader_src -> list Z -> inst * Cmds' * InputReader_src.
 """
 REG_V = r"""(* GENERATED by bin/rs2v.py (fixed text): TRUSTED table of std meanings used by src/input_context.rs. *)
 From BEI Require Import Model.Num Model.Registry.
@@ -2247,6 +2251,9 @@ def assigned_vars(n, acc):
                 acc.append((assign_root(n.expr.args[0]), n.line))
             else:
                 acc.append((assign_root(n.expr.recv), n.line))
+            if n.expr.name in [k_[1] for k_ in OPAQUE_MULTI_STMTS] and len(n.expr.args) >= 4:
+                for a_ in n.expr.args[:2]:
+                    acc.append((assign_root(a_), n.line))
             if n.expr.name in [k_[1] for k_ in OPAQUE_PAIR_STMTS]:
                 for a_ in n.expr.args:
                     if a_.k == 'Ref' and a_.mut:
@@ -2580,6 +2587,11 @@ class FnTranslator(object):
         if s.k == 'For' and s.iter.k == 'Ref' and s.iter.mut and s.pat.k == 'PBind':
             head = self.for_mut(s, env, want)
             return prefix(head, go_rest())
+        if (s.k == 'For' and s.iter.k == 'Path' and len(s.iter.segs) == 1 and s.iter.segs[0] in env
+                and getattr(env[s.iter.segs[0]], 'byref', False) and s.pat.k in ('PBind', 'PTuple')):
+            head = self.for_mut(Node('For', s.line, pat=s.pat, iter=Node('Ref', s.line, mut=True, expr=s.iter),
+                                     body=s.body), env, want)
+            return prefix(head, go_rest())
         if s.k == 'For' and s.pat.k == 'PBind' and not contains_continue(s.body) and not (
                 s.iter.k == 'Method' and s.iter.name == 'zip'):
             head = self.for_fold(s, env)
@@ -2660,12 +2672,28 @@ class FnTranslator(object):
             if ty1 != ty2:
                 self.fail(e.line, "branches of types `%s` and `%s`" % (ty1, ty2))
             return (fmt(t1, t2), ty1)
+        if (s.k == 'Expr' and s.expr.k == 'Match' and s.expr.scrut.k == 'Path' and len(s.expr.scrut.segs) == 1
+                and s.expr.scrut.segs[0] in env and env[s.expr.scrut.segs[0]].kind == 'refmut'
+                and env[s.expr.scrut.segs[0]].ty in ENUM_MAP and all(a.pat.k == 'PStruct' for a in s.expr.arms)):
+            e = s.expr
+            v0 = e.scrut.segs[0]
+            names = [v0]
+            for (nm, ln) in assigned_vars(e, []):
+                if nm in env and nm not in names:
+                    names.append(nm)
+            rhs = self.lens_var_match(e, env, names)
+            r = go_rest()
+            if value_mode:
+                return (self.bind_vars(names, env, rhs, r[0]), r[1])
+            return self.bind_vars(names, env, rhs, r)
         if (s.k == 'Expr' and s.expr.k == 'Match' and s.expr.scrut.k == 'Ref' and s.expr.scrut.mut
                 and s.expr.scrut.expr.k == 'Index'):
             name, newval = self.lens_match(s.expr, env)
             return prefix("let %s :=\n  %s in\n" % (env[name].coq, ind(newval)), go_rest())
         if s.k == 'Expr' and s.expr.k == 'Method':
             res = self.method_stmt(s.expr, env)
+            if res[0] == 'multi':
+                return prefix("let '(%s) :=\n  %s in\n" % (', '.join(env[n_].coq for n_ in res[1]), ind(res[2])), go_rest())
             if len(res) == 3:
                 return prefix("let '(%s, %s) :=\n  %s in\n" % (env[res[0]].coq, env[res[2]].coq, ind(res[1])), go_rest())
             name, newval = res
@@ -2821,6 +2849,44 @@ class FnTranslator(object):
         out.append("| None =>\n    %s\nend" % cur)
         return root, rb('\n'.join(out))
 
+    def lens_var_match(self, e, env, names):
+        """match x { Variant { f, .. } => { stmts } .. } on a `&mut` variable x: the fields are mutable locals, x is
+           rebuilt from them at the end of the arm; the arm may also assign outer variables (names)"""
+        v0 = e.scrut.segs[0]
+        ety = env[v0].ty
+        decl = dict((v, (kd, pl)) for (v, kd, pl) in self.enum_of(ety, e.line))
+        out = ["match %s with" % env[v0].coq]
+        for a in e.arms:
+            p = a.pat
+            if self.resolve_type(p.path[-2], p.line) != ety or p.path[-1] not in decl:
+                self.fail(a.line, "pattern does not name a variant of `%s`" % ety)
+            kd, payload = decl[p.path[-1]]
+            given = dict(p.fields)
+            if kd != 'struct' or any(f not in dict(payload) for f in given) or any(fp.k != 'PBind' for fp in given.values()):
+                self.fail(a.line, "unsupported pattern in a match on a `&mut` value")
+            if a.body.k != 'Block' or contains_return(a.body) or contains_continue(a.body):
+                self.fail(a.line, "arm of a match on a `&mut` value must be a plain block")
+            env2 = dict(env)
+            fields = []
+            for (f, fty) in payload:
+                if f in given:
+                    v = given[f].name
+                    env2[v] = Var(fty, v + "'", 'mut')
+                    env2[v].byref = True
+                    fields.append((v, None))
+                else:
+                    fields.append((None, "%s0'" % f))
+            cname = ENUM_MAP[ety][p.path[-1]][0]
+            pat = ' '.join([cname] + [(env2[v].coq if v else t) for (v, t) in fields])
+
+            def wb(env_, fields=fields, cname=cname):
+                return v0, ' '.join([cname] + [(env_[v].coq if v else t) for (v, t) in fields])
+            extra = [Node('Expr', a.body.tail.line, expr=a.body.tail)] if a.body.tail is not None else []
+            body = self.seq(a.body.stmts + extra + [Node('Raw', a.line, fn=wb)], None, env2, ('vars', names))
+            out.append("| %s =>\n    %s" % (pat, ind(body, 4)))
+        out.append("end")
+        return '\n'.join(out)
+
     def lens_let(self, s, rest, tail, env, want):
         """let x = match &mut VEC[i] { Variant { f, .. } => { stmts; value } .. };  rest
            each arm is continued by: x := value; write the rebuilt element back; rest.  Out of bounds = None."""
@@ -2877,17 +2943,32 @@ class FnTranslator(object):
         if not ty.startswith('Vec<'):
             self.fail(s.line, "`for` over `&mut` of type `%s`" % ty)
         elem = ty[4:-1]
-        x = s.pat.name
+        env2 = dict(env)
+        destr = ''
+        if s.pat.k == 'PTuple':
+            comps = split_tuple_type(elem)
+            if comps is None or len(comps) != len(s.pat.items) or any(q.k != 'PBind' for q in s.pat.items):
+                self.fail(s.line, "tuple pattern of a `for` loop does not fit `%s`" % elem)
+            x = 'item#'
+            for (q, qt) in zip(s.pat.items, comps):
+                env2[q.name] = Var(qt, q.name + "'", 'refmut')
+                env.pop(q.name, None) if False else None
+            tup = '(' + ', '.join(q.name + "'" for q in s.pat.items) + ')'
+            env2[x] = Var(elem, tup, 'val')
+            destr = "let '%s := item' in\n  " % tup
+            locals_ = [q.name for q in s.pat.items]
+        else:
+            x = s.pat.name
+            env2[x] = Var(elem, x + "'", 'refmut')
+            locals_ = [x]
         state = []
         for (nm, ln) in assigned_vars(s.body, []):
             if nm is None:
                 self.fail(ln, "unsupported assignment target")
-            if nm in env and nm != x and nm not in state:
+            if nm in env and nm not in locals_ and nm not in state:
                 state.append(nm)
         if contains_return(s.body):
             self.fail(s.line, "`return` inside a loop")
-        env2 = dict(env)
-        env2[x] = Var(elem, x + "'", 'refmut')
         names = LoopVars(state + [x])
         saved = self.time_used
         self.time_used = []
@@ -2900,13 +2981,16 @@ class FnTranslator(object):
         sT = sty[0] if len(sty) == 1 else '(' + ' * '.join(sty) + ')'
         sP = env[state[0]].coq if len(state) == 1 else "'(" + ', '.join(env[n].coq for n in state) + ')'
         eT = self.coq_type(elem, s.line)
-        step = self.step_name
+        self.step_count = getattr(self, 'step_count', 0) + 1
+        step = self.step_name if self.step_count == 1 else self.step_name[:-4] + '%d_src' % self.step_count
+        xb = "item'" if s.pat.k == 'PTuple' else x + "'"
+        xdoc = 'item' if s.pat.k == 'PTuple' else x
         binders = ' '.join("(%s : %s)" % p for p in tb + params)
         self.out.defs.append("(* body of the loop `for %s in &mut ..` of %s::%s, %s:%d, as a step over the outer state\n"
                              "   (%s) and the element; `continue` ends the step *)\n"
-                             "Definition %s %s (st' : %s) (%s' : %s) : (%s * %s) :=\n  let %s := st' in\n  %s.\n"
-                             % (x, self.self_type, self.fn.name, self.sf.rel, s.line, ', '.join(state), step, binders,
-                                sT, x, eT, sT, eT, sP, ind(body)))
+                             "Definition %s %s (st' : %s) (%s : %s) : (%s * %s) :=\n  let %s := st' in\n  %s%s.\n"
+                             % (xdoc, self.self_type, self.fn.name, self.sf.rel, s.line, ', '.join(state), step, binders,
+                                sT, xb, eT, sT, eT, sP, destr, ind(body)))
         call = ' '.join([step] + [p[0] for p in tb + params])
         st0 = env[state[0]].coq if len(state) == 1 else '(' + ', '.join(env[n].coq for n in state) + ')'
         pat = "'(%s, items')" % (st0)
@@ -2952,6 +3036,18 @@ class FnTranslator(object):
                 self.fail(e.line, "`%s` on overlapping places" % e.name)
             self.pending = (r2, rb2("p2'"))
             return root, "let '(p1', p2') := %s %s %s in\n(%s, %s)" % (fn, par(cur), par(cur2), rb("p1'"), rb2("p2'")), r2
+        if key in OPAQUE_MULTI_STMTS:
+            fn, nt = OPAQUE_MULTI_STMTS[key]
+            places = [self.place(a, env, e.line)[:4] for a in e.args[:nt]]
+            rest_ = [par(self.expr(a, env, None)[0]) for a in e.args[nt:]
+                     if not (a.k == 'Path' and len(a.segs) == 1 and a.segs[0] in env and env[a.segs[0]].kind == 'time')]
+            roots = [root] + [p_[0] for p_ in places]
+            if len(set(roots)) != len(roots):
+                self.fail(e.line, "`%s` on overlapping places" % e.name)
+            call = ' '.join([fn, par(cur)] + [par(p_[1]) for p_ in places] + rest_)
+            outs = [rb("q0'")] + [p_[3]("q%d'" % (i + 1)) for i, p_ in enumerate(places)]
+            pat = "'(" + ', '.join("q%d'" % i for i in range(len(roots))) + ')'
+            return ('multi', roots, "let %s := %s in\n(%s)" % (pat, call, ', '.join(outs)))
         if key in EFFECT_STMTS:
             if not e.args:
                 self.fail(e.line, "unexpected arguments of `%s`" % e.name)
@@ -3814,7 +3910,7 @@ TRACKER_FNS = ['new', 'state', 'value', 'events_blocked', 'overwrite', 'combine'
 DATA_FNS = ['update', 'state']
 REGISTRY_FNS = [('InstanceGroup', 'priority'), ('InstanceGroup', 'type_id'), ('InstanceGroup', 'new'),
                 ('ContextInstances', 'index'), ('ContextInstances', 'add'), ('ContextInstances', 'get'),
-                ('ContextInstances', 'remove')]
+                ('ContextInstances', 'remove'), ('ContextInstances', 'update')]
 READER_FNS = [('ConsumedInput', 'reset'), ('InputReader', 'mod_keys_pressed'), ('InputReader', 'value'),
               ('InputReader', 'consume')]
 MODIF_FILES = [('scale.rs', 'Scale', 'struct', [], ['apply']),
@@ -3957,7 +4053,8 @@ def run(repo, outdir):
     rg = SrcFile(repo, 'src/input_context.rs')
     o_reg = OutFile('Generated.RegistrySrc', rg.rel,
                     ['Model.Num', 'Model.Value', 'Model.State', 'Model.Tracker', 'Model.Cond', 'Model.Modif',
-                     'Model.Reader', 'Model.Action', 'Model.Registry', 'Generated.BevyTbl', 'Generated.RegTbl'])
+                     'Model.Reader', 'Model.Action', 'Model.Registry', 'Generated.BevyTbl', 'Generated.RegTbl',
+                     'Generated.ReaderSrc', 'Generated.ActionSrc'])
     w.newtypes = {}
     for it in rg.items:
         if it.kind == 'tstruct' and it.name == 'ContextInstances':
